@@ -114,8 +114,11 @@ def fix_tree_for_config(rng, tree, cfg, need_stat=True, avoid_all_1x1=True,
     i = rng.randrange(len(tree))
     tree = list(tree)
     tree[i] = gen_shape(rng)
-    if cr and rng.random() < 0.5:
+    if cr and rng.random() < 0.7:
       tree[i] = [pick(rng, [6, 7, 8, 9, 10]), pick(rng, [2, 3, 6, 8])]
+      if cfg.get('best_effort_shape_interpretation', True) and \
+          cfg.get('merge_small_dims_block_size', 4096) >= 12:
+        tree[i] = [pick(rng, [6, 7, 8, 9, 10])] if rng.random() < 0.3 else tree[i]
   return [[4, 6]] if not cfg.get('compression_rank') else [[8, 6]]
 
 
